@@ -149,4 +149,7 @@ def tiny_strength(cards, tname):
     if tname == 'JQLow':
         vals = [{'J': 1, 'Q': 0}[r] for r in ranks if r in 'JQ']
         return max(vals) if vals else None
+    if tname == 'HighCardAny':
+        vals = ['23456789TJQKA'.index(r) for r in ranks]
+        return max(vals) if vals else None
     raise KeyError(tname)
